@@ -473,7 +473,7 @@ func Run(o *core.Options) int {
 	reps := ref.Representatives(all, 1, o.Seed)
 	var main []*ref.Model
 	if b.stride < len(reps) {
-		main = every(reps, b.stride)
+		main = ref.WithTwins(every(reps, b.stride), reps)
 	}
 	if b.perClass > 1 {
 		main = ref.Representatives(all, b.perClass, o.Seed)
